@@ -548,14 +548,29 @@ theorem run_rd (op : Op) (hne : ∀ h p c, op ≠ .connect h p c) : Keeps Rd op.
 def openW (h : Bytes) (p : Nat) (w : World) : World :=
   { w with ctl := {}, connected := true, script := w.script.tail,
            net := { w.net with stream := (match w.script with | g :: _ => g | [] => { raws := [] }).raws.flatten },
-           trace := w.trace ++ [.ctlConnect h p] ++ w.observers.map (fun o => Ev.obsConnected o h p) }
+           trace := w.trace ++ (if w.connected then [.ctlClose] else []) ++ [.ctlConnect h p] ++
+             w.observers.map (fun o => Ev.obsConnected o h p) }
 
 /-- the greeting phase after the TCP connect -/
 def greet : M (Reply × Replies) := do
   let (r, rs) ← recvInto Replies.empty
   if r.code == 120 then recvInto rs else pure (r, rs)
 
-theorem connectCore_run (h : Bytes) (p : Nat) (w : World) : connectCore h p w = greet (openW h p w) := rfl
+/-- ... when no connection had to be abandoned first -/
+def openW0 (h : Bytes) (p : Nat) (w : World) : World :=
+  { w with ctl := {}, connected := true, script := w.script.tail,
+           net := { w.net with stream := (match w.script with | g :: _ => g | [] => { raws := [] }).raws.flatten },
+           trace := w.trace ++ [.ctlConnect h p] ++ w.observers.map (fun o => Ev.obsConnected o h p) }
+
+theorem connectGreet_run (h : Bytes) (p : Nat) (w : World) : connectGreet h p w = greet (openW0 h p w) := rfl
+
+theorem connectCore_run (h : Bytes) (p : Nat) (w : World) : connectCore h p w = greet (openW h p w) := by
+  unfold connectCore
+  rw [CtlL.bind_apply, connectAbandon_run]
+  show connectGreet h p (abandonW w) = _
+  rw [connectGreet_run]; congr 1
+  unfold abandonW openW openW0
+  cases hc : w.connected <;> simp
 
 theorem connectCheck_none (w : World) : connectCheck none w = (.ok (), w) := rfl
 
@@ -2012,15 +2027,26 @@ theorem fileList_dlg {path : Option Bytes} {names : Bool} {w w' : World} {rs : R
 /-! ### `connect` -/
 
 theorem ext_openW (h : Bytes) (p : Nat) (w : World) : Ext w (openW h p w) [] [] := by
-  refine ⟨[.ctlConnect h p] ++ w.observers.map (fun o => Ev.obsConnected o h p), by simp [openW], ?_, ?_⟩
+  refine ⟨(if w.connected then [.ctlClose] else []) ++ [.ctlConnect h p] ++
+    w.observers.map (fun o => Ev.obsConnected o h p), by simp [openW], ?_, ?_⟩
   · apply DataL.writes_eq_nil
     intro e he b
     simp only [List.mem_append, List.mem_singleton, List.mem_map] at he
-    rcases he with rfl | ⟨o, _, rfl⟩ <;> simp
+    rcases he with (he | rfl) | ⟨o, _, rfl⟩
+    · split at he
+      · simp only [List.mem_singleton] at he; subst he; simp
+      · cases he
+    · simp
+    · simp
   · apply DataL.received_eq_nil
     intro e he c t
     simp only [List.mem_append, List.mem_singleton, List.mem_map] at he
-    rcases he with rfl | ⟨o, _, rfl⟩ <;> simp
+    rcases he with (he | rfl) | ⟨o, _, rfl⟩
+    · split at he
+      · simp only [List.mem_singleton] at he; subst he; simp
+      · cases he
+    · simp
+    · simp
 
 theorem connect_dlg {hh : Bytes} {p : Nat} {cred : Option (Bytes × Bytes)} {w w' : World} {rs : Replies}
     {gs : List SGroup} (h : connect hh p cred w = (.ok rs, w')) (hsc : w.script = gs.map SGroup.enc)
